@@ -29,8 +29,10 @@ GEN = ["Box.lean"]
 DRIVERS = ["drv_box"]
 TRUSTED = [
     "modelled, not verified: CPython runs a proxy's finalizer (and clears its weak cache entry) as soon as the last "
-    "holder lets go — the model's `finalize` is the event 'the finalizer ran'; `get_id_pack` is a stable injective key "
-    "of a live object; one side of a connection dispatches one message at a time (C12/C13 cover threads)",
+    "holder lets go — the model's `finalize` is the event 'the finalizer ran' (finalisation by the cyclic GC is not "
+    "generated); `get_id_pack` is ASSUMED to be a stable injective key of a live object, also when `_handle_del` recomputes "
+    "it (a proxy of another connection or an object with an `____id_pack__` attribute is keyed by foreign ids, which can "
+    "collide: outside the claim); one side of a connection dispatches one message at a time (C12/C13 cover threads)",
     "harness: the peer application's sink/give/recv functions and the out-of-band hand-over of their proxies "
     "(real `_box` on one side, real `_unbox` on the other) that bootstraps a pair without a blocking round trip",
 ]
@@ -41,7 +43,14 @@ ASSUMPTIONS = [
     "a run-time class, a builtin type and an instance with the real round trip; instances of user classes occur only there",
     "close is modelled as atomic: the harness lets the other side notice (one or two serve attempts) before comparing; "
     "the order in which the two ends reach `closed` is C11's subject",
-    "one direction of lending is modelled (owner A, peer B); the other direction is the same code with roles exchanged",
+    "one direction of lending is modelled (owner A, peer B); the other direction is the same code with roles exchanged; a "
+    "message mixing hand-backs with the sender's own references, and references inside keyword arguments, occur in the "
+    "baton scenarios only",
+    "`Connection._last_traceback` (the debugging aid that keeps the frames, hence the locals, of the last exception a handler "
+    "or a failed reply raised, until the next one) is not counted as 'the connection references the object': the harness "
+    "clears it before liveness checks",
+    "close is atomic in the model (close_releases restates `_cleanup` clearing the tables); that the real ends get there for "
+    "every way of ending — incl. a failing before_closed hook and a vanished peer — is checked on the real code after every history",
     "a nested serve() during `_unbox` (HANDLE_INSPECT of a not-yet-seen class) is modelled for a hand-back request as 'any "
     "finite sequence of machine operations between the table lookup and the handler'; on the real code it is exercised by "
     "one baton-mode scenario per run (reply form and request form), not by the manual-delivery histories",
@@ -53,7 +62,10 @@ EXPLANATION = ("Theorems: the counting invariant (stored+1 = references in fligh
                "no_leak_at_quiescence, close_releases; application-level histories (hold/drop/collect) refine machine "
                "histories. The crossing race is replayed as an example. Non-atomic dispatch (a nested serve() during `_unbox`, "
                "with ANY operations in between): invariant_nested and never_keyError_nested for the order observed on the live "
-               "`_unbox` (generated constant localRefsResolvedFirst), onePass_order_counterexample for the order before e881f31.")
+               "`_unbox` (generated constant localRefsResolvedFirst), onePass_order_counterexample for the order before e881f31. "
+               "Messages boxed and then refused by the serializer (sendFail / fetchBad): preserved because the registrations "
+               "are taken back (generated constant failedSendReleases, failed_send_is_released), "
+               "unreleased_failed_send_leaks is the counterexample for code that does not.")
 
 N_OBJS = 3
 
@@ -923,12 +935,12 @@ def correspondence(ctx):
         d1, d2 = ctx.budget((5, 5), (6, 6))
         n1, full1 = exhaustive(1, d1, ALPHABET_1, emit_for(1, "exhaustive-1obj"), t0 + ctx.budget(30, 400))
         n2, full2 = exhaustive(2, d2, ALPHABET_2, emit_for(2, "exhaustive-2obj"), time.time() + ctx.budget(30, 200))
-        nf, fullf = exhaustive(1, d1, ALPHABET_F, emit_for(1, "exhaustive-failed-sends"), time.time() + ctx.budget(20, 200))
+        nf, fullf = exhaustive(1, d1, ALPHABET_F, emit_for(1, "exhaustive-failed-sends"), time.time() + ctx.budget(12, 200))
         c.extra["exhaustive_failed_sends"] = dict(depth=d1, histories=nf, complete=fullf)
         c.extra["exhaustive_1obj"] = dict(depth=d1, histories=n1, complete=full1)
         c.extra["exhaustive_2obj"] = dict(depth=d2, histories=n2, complete=full2)
         n_rand = ctx.budget(2000, 40000)
-        rand_deadline = time.time() + ctx.budget(25, 420)
+        rand_deadline = time.time() + ctx.budget(18, 420)
         done_rand = 0
         for i in range(n_rand):
             if time.time() > rand_deadline:
